@@ -690,6 +690,13 @@ where
         new_len: usize,
         initialize: impl FnOnce(&mut &mut [u8], I) -> Result<()>,
     ) -> Result<()> {
+        // The current length and start are read through our pointers and then written through, so they
+        // have to be checked even when no resize (which would check them) happens.
+        let range = Self::range(self).clone();
+        assert!(
+            Mut::check_pointers(self, &range, &mut { range.start }),
+            "Pointers have been invalidated before setting the data. Was I `mem::swapped`?"
+        );
         let current_len = <U as UnsizedType>::data_len(self);
         let start_ptr = <U as UnsizedType>::start_ptr(self);
 
